@@ -251,6 +251,12 @@ M("c08-order-desc", "C08", "R08.4", BS, "                   from chain order by 
 M("c08-commit-early", "C08", "R08.5", BS,
   "        cur.executemany(\"insert or ignore into transaction_locator values (?,?)\", transactions_param)\n",
   "        cur.execute('COMMIT')\n        cur.executemany(\"insert or ignore into transaction_locator values (?,?)\", transactions_param)\n")
+M("c08-write-failure-swallowed", "C08", "R08.5", BS,
+  "        cur.execute('BEGIN TRANSACTION')\n        cur.executemany(\"insert or ignore into chain values (?,?,?,?,?,?,?,?,?,?,?)\", blocks_param)\n",
+  "        try:\n            cur.execute('BEGIN TRANSACTION')\n            cur.executemany(\"insert or ignore into chain values (?,?,?,?,?,?,?,?,?,?,?)\", blocks_param)\n        except sqlite3.Error:\n            pass\n")
+M("c08-small-batches-skipped", "C08", "R08.5", BS,
+  "        cur = self.connection.cursor()\n        cur.execute('BEGIN TRANSACTION')\n",
+  "        if len(blocks) > 500:\n            return\n        cur = self.connection.cursor()\n        cur.execute('BEGIN TRANSACTION')\n")
 M("c08-locator-replace", "C08", "R08.6", BS, "        cur.executemany(\"insert or ignore into transaction_locator values (?,?)\", transactions_param)",
   "        cur.executemany(\"insert or replace into transaction_locator values (?,?)\", transactions_param)")
 M("c08-clear-before-write", "C08", "R08.5", BS, "                self.write_blocks_to_disk(self.write_buffer)\n                self.write_buffer.clear()",
@@ -432,7 +438,7 @@ M("c11-dispatch-whole-buffer", "C11", ["P5", "P3"], RP, "            self.handle
 M("c11-max-size-64", "C11", "P7", NP, "MAX_MESSAGE_SIZE = 32 * 1024 * 1024", "MAX_MESSAGE_SIZE = 64 * 1024 * 1024")
 M("c11-replace-buffer", "C11", "P1", RP, "        self.buffer += data\n", "        self.buffer = data if not self.buffer else self.buffer + data\n")
 M("c11-len-little-endian", "C11", "P3", RP, "            (self.len,) = struct.unpack(b\">I\", self.buffer[:4])", "            (self.len,) = struct.unpack(b\"<I\", self.buffer[:4])")
-M("c11-stage-order", "C11", ["P6", "P3", "P7"], RP, "        if self.len is None and len(self.buffer) >= 4:\n            (self.len,) = struct.unpack(b\">I\", self.buffer[:4])", "        if self.len is None and self.magic_read and len(self.buffer) >= 4 and len(self.buffer) < 4096:\n            (self.len,) = struct.unpack(b\">I\", self.buffer[:4])")
+M("c11-stage-order", "C11", ["P6", "P3", "P7", "P4"], RP, "        if self.len is None and len(self.buffer) >= 4:\n            (self.len,) = struct.unpack(b\">I\", self.buffer[:4])", "        if self.len is None and self.magic_read and len(self.buffer) >= 4 and len(self.buffer) < 4096:\n            (self.len,) = struct.unpack(b\">I\", self.buffer[:4])")
 
 # ----------------------------------------------------------------------------------------------- C19
 M("c19-drop-del-disconnected", "C19", "R19.2", MGR, "        if key in self.disconnected_peers:\n            del self.disconnected_peers[key]\n", "")
@@ -500,7 +506,6 @@ M("c09-broadcast-twice", "C09", "R09.8", MGR, "                peer.send_message
 M("c09-broadcast-first-peer-only", "C09", "R09.8", MGR, "        for peer in self.get_active_peers():\n            try:", "        for peer in self.get_active_peers()[:1]:\n            try:")
 M("c11-drop-first-byte", "C11", "P1", RP, "        self.receiver.receive(data)", "        self.receiver.receive(data[1:] if len(data) > 1023 else data)")
 M("c01-add-block-mutates-receiver", "C01", "R03.1", CS, "        validate_block_in_coinstate(block, self)\n\n        return", "        self.current_chain_hash = block.hash()\n        validate_block_in_coinstate(block, self)\n\n        return")
-M("c04-forks-skip-main", "C04", "R04.6", CS, "        return [(head, _find_lca_with_main(head)) for head in self.heads.values()]", "        return [(head, _find_lca_with_main(head)) for head in self.heads.values() if head.hash() != self.current_chain_hash]")
 
 # ----------------------------------------------------------------------------------------------- from independent sub-agents (first missed, then rules added)
 M("c16-upper-exclusive", "C16", "R16.5", CONS, "    if not (0 < value <= MAX_SASHIMI):", "    if value <= 0 or value >= MAX_SASHIMI:")
@@ -555,6 +560,11 @@ M("c12-broadcast-try-outside-loop", "C12", "R09.8", MGR, "        for peer in se
 # ----------------------------------------------------------------------------------------------- rules added after the third seed round
 M("c10-no-write-readiness", "C10", "R10.8", RP, "            self.local_peer.selector.modify(self.sock, selectors.EVENT_READ | selectors.EVENT_WRITE, data=self)", "            self.local_peer.selector.modify(self.sock, selectors.EVENT_READ, data=self)")
 M("c10-msg-id-from-zero", "C10", "R10.8", RP, "        self._next_msg_id += 1\n        return self._next_msg_id", "        msg_id = self._next_msg_id\n        self._next_msg_id += 1\n        return msg_id")
+M("c15-startup-loads-backup-copy", "C15", "R15.8", "skepticoin/scripts/utils.py", "        wallet = Wallet.load(open(\"wallet.json\", \"r\"))\n",
+  "        wallet = Wallet.load(open(\"wallet.json.bak\" if os.path.isfile(\"wallet.json.bak\") else \"wallet.json\", \"r\"))\n")
+M("c15-save-to-given-name-sites-differ", "C15", "R15.4", WAL, "def save_wallet(wallet: Wallet) -> None:", "def save_wallet(wallet: Wallet, filename: str = \"wallet.json\") -> None:",
+  WAL, "    os.replace(\"wallet.json.new\", \"wallet.json\")", "    os.replace(\"wallet.json.new\", filename)",
+  "skepticoin/scripts/receive.py", "    save_wallet(wallet)\n", "    save_wallet(wallet, \"wallet-receive.json\")\n")
 M("c15-startup-gives-keys-back", "C15", "R15.8", "skepticoin/scripts/utils.py", "        wallet = Wallet.load(open(\"wallet.json\", \"r\"))\n", "        wallet = Wallet.load(open(\"wallet.json\", \"r\"))\n        for pk, note in list(wallet.public_key_annotations.items()):\n            if note == \"reserved for potentially mined block\":\n                wallet.restore_annotated_public_key(pk, note)\n")
 M("c18-skip-misses-checkpoints", "C18", "R18.8", NP, "IBD_VALIDATION_SKIP = 10000", "IBD_VALIDATION_SKIP = 10080")
 M("c15-balance-misprinted", "C15", "R15.7", "skepticoin/scripts/balance.py", "        wallet.get_balance(coinstate) / SASHIMI_PER_COIN, \"SKEPTI at h. %s,\" % coinstate.head().height,", "        wallet.get_balance(coinstate) // SASHIMI_PER_COIN, \"SKEPTI at h. %s,\" % coinstate.head().height,")
